@@ -279,11 +279,24 @@ def check(repo, res, tier):
                         written.setdefault(t.attr, []).append(n)
         for attr, wnodes in sorted(written.items()):
             plain = [w for w in wnodes if isinstance(w.ast, ast.Assign)]
+            # lazy initialisation (`if self.x is None: self.x = <built from the model>`) is a cache, not simulation state:
+            # the guard itself counts as the point after which the attribute is initialised
+            lazy = []
+            for n in fcfg.stmt_nodes():
+                t = getattr(n.ast, "test", None) if n.kind in ("if", "test", "branch") or isinstance(n.ast, ast.If) else None
+                if isinstance(t, ast.Compare) and len(t.ops) == 1 and isinstance(t.ops[0], ast.Is) and is_self_attr(t.left, attr) \
+                        and isinstance(t.comparators[0], ast.Constant) and t.comparators[0].value is None:
+                    body = n.ast.body if isinstance(n.ast, ast.If) else []
+                    if any(isinstance(b, ast.Assign) and any(is_self_attr(tt, attr) for tt in b.targets) for b in body):
+                        lazy.append(n)
+            plain = plain + lazy
             carried = []
             for n in fcfg.stmt_nodes():
                 reads = [x for e in fdf.node_exprs(n) for x in walk_no_nested(e) if is_self_attr(x, attr) and isinstance(x.ctx, ast.Load)]
                 if isinstance(n.ast, ast.AugAssign) and is_self_attr(n.ast.target, attr):
                     reads.append(n.ast.target)
+                if n in lazy:
+                    continue
                 if reads and not any(fcfg.dominates(w, n) and w.id != n.id for w in plain):
                     carried.append(n)
             res.check(not carried, "R-PURE", fn_, "no-carried-state(%s)" % attr, "self.%s is (re)initialised in every run before it is read" % attr,
